@@ -722,8 +722,11 @@ def _main(mod, pid, args, shim, t0):
     ev = dict(property_id=pid, tier=tier, seed=seed, level="exploration",
               coverage=cov, assumptions=assumptions, wall_s=round(wall, 2),
               violations=len(found))
-    os.makedirs(os.path.join(env.VERIF_DIR, "evidence"), exist_ok=True)
-    with open(os.path.join(env.VERIF_DIR, "evidence", pid + ".json"), "w") as f:
+    # sensitivity runs against a patched scratch tree (mutants/, seeded/, benign/) set
+    # VERIF_EVIDENCE_DIR so that /verif/evidence only ever describes runs against /repo
+    evdir = os.environ.get("VERIF_EVIDENCE_DIR") or os.path.join(env.VERIF_DIR, "evidence")
+    os.makedirs(evdir, exist_ok=True)
+    with open(os.path.join(evdir, pid + ".json"), "w") as f:
         json.dump(ev, f, indent=1, default=_json_default)
     ndist = len(total.nontrivial) + total.nontrivial_enum
     print("%s %s seed=%d: %d cases (%d distinct non-trivial), %d violation label(s), %.1fs"
